@@ -216,6 +216,8 @@ def main(run: Run):
     run_configs(run, __name__, cfgs)
     from . import patterns_l1
     patterns_l1.add_to(run)
+    from . import busadd_l1
+    busadd_l1.add_to(run, ['wb_decoder_add'])
     from . import validation
     validation.add_to(run, ['wb_decoder_add', 'memory_map_setters'])
     return run.finish(
